@@ -26,7 +26,7 @@ OBJECTS = [
      "locked_object_linearizable/clist_linearizable, clist_readonly_no_change"),
     ("cow", "list.CopyOnWriteArrayList", ["cow"],
      "cow_linearizable, cow_no_panic"),
-    ("syncmap", "syncx.Map", ["syncmap"],
+    ("syncmap", "syncx.Map", ["syncmap", "syncmap-any", "syncmap-error"],
      "syncmap_linearizable, syncmap_no_panic"),
 ]
 
@@ -136,7 +136,7 @@ def maprange(c, binary, cases, ms):
     if first.startswith("ok "):
         return None, first
     kind = first.split()[0].rstrip(":")
-    if kind not in ("range-contract", "hang"):
+    if kind not in ("range-contract", "map-contract", "hang"):
         kind = "crash"
     return {"object": "syncmap", "kind": kind, "result": first[:500],
             "how": "h c06-locked-maprange %d %d %d   (sequential differential against a mirror map, then the concurrent weak contract)"
